@@ -36,6 +36,43 @@ func privScalar(t *rapid.T) (*big.Int, string) {
 	return gen.NonZero256(t, ref.N, "d"), kind
 }
 
+// signingKey builds the private key through a drawn route and then lets the
+// "caller" overwrite everything it passed in or got back, which must not
+// influence later signatures.
+func signingKey(t *rapid.T, d *big.Int) *secec.PrivateKey {
+	switch rapid.SampledFrom([]string{"bytes", "bytes", "scalar-then-mutate", "bytes-then-scrub"}).Draw(t, "key-route") {
+	case "scalar-then-mutate":
+		sc := lib.Sc(d)
+		k, err := secec.NewPrivateKeyFromScalar(sc)
+		if err != nil {
+			t.Fatalf("NewPrivateKeyFromScalar(%x): %v", d, err)
+		}
+		// (not Zero(): a key that aliases a zeroed scalar makes sign() spin forever on e = 0, and a
+		// hang can only be reported as inconclusive)
+		if rapid.Bool().Draw(t, "negate-it") {
+			sc.Negate(sc)
+		} else {
+			sc.Add(sc, sc) // 2d != 0 for d != 0 (n is odd)
+		}
+		return k
+	case "bytes-then-scrub":
+		raw := ref.B32(d)
+		k, err := secec.NewPrivateKey(raw)
+		if err != nil {
+			t.Fatalf("NewPrivateKey(%x): %v", d, err)
+		}
+		for _, b := range [][]byte{raw, k.Bytes(), k.PublicKey().Bytes()} {
+			for i := range b {
+				b[i] = 0
+			}
+		}
+		k.Scalar().Zero()
+		k.PublicKey().Point().Identity()
+		return k
+	}
+	return lib.PrivKey(d)
+}
+
 func digestBytes(t *rapid.T, n int) ([]byte, string) {
 	kind := rapid.SampledFrom([]string{"zeros", "ones", ">=n", "e=n", "random", "random"}).Draw(t, "digkind")
 	d := make([]byte, n)
@@ -137,7 +174,7 @@ func propSignRaw(t *rapid.T) {
 	}
 	digest, digk := digestBytes(t, dlen)
 	rnd, again, rdesc := entropy(t)
-	key := lib.PrivKey(d)
+	key := signingKey(t, d)
 	q := ref.BaseMul(d)
 	r, s, v, err := key.SignRaw(rnd, digest)
 	if err != nil {
@@ -168,7 +205,7 @@ func (p plainOpts) HashFunc() crypto.Hash { return p.h }
 
 func propSignOpts(t *rapid.T) {
 	d, dk := privScalar(t)
-	key := lib.PrivKey(d)
+	key := signingKey(t, d)
 	okind := rapid.SampledFrom([]string{"nil", "ecdsa", "ecdsa", "ecdsa", "plain-hash", "plain-struct"}).Draw(t, "optkind")
 	var (
 		opts      crypto.SignerOpts
@@ -307,3 +344,110 @@ func eoForVerify(eo *secec.ECDSAOptions, enc secec.SignatureEncoding) *secec.ECD
 func TestC08_SignOpts(t *testing.T) { rapid.Check(t, propSignOpts) }
 
 var _ = secp256k1.ScalarSize
+
+// propEncodeStage exercises the second half of Sign -- turning (r, s, v) into
+// bytes -- on values a caller cannot reach through signing itself (the nonce
+// is not the caller's to choose): valid signatures whose r and/or s have
+// leading zero bytes, a set top bit, or sit at the low-s boundary are built
+// with the chosen-R construction Q = r^-1(sR - eG), encoded with the
+// library's Build* functions exactly as Sign does, and must (a) equal the
+// reference encoding, (b) parse back, and (c) verify under Q.
+func propEncodeStage(t *rapid.T) {
+	var R ref.Pt
+	rk := rapid.SampledFrom([]string{"small-x", "small-x", "drawn", "x>=n"}).Draw(t, "Rkind")
+	switch rk {
+	case "small-x":
+		R = gen.SmallXPoint(t, "R").P
+	case "x>=n":
+		xr := new(big.Int).Add(ref.N, gen.Small(t, "xoff"))
+		for {
+			if pt, ok := ref.LiftX(xr, rapid.Bool().Draw(t, "Rodd")); ok {
+				R = pt
+				break
+			}
+			xr.Add(xr, big.NewInt(1))
+		}
+	default:
+		R = gen.NonIdentityPoint(t, "R").P
+	}
+	r := ref.Mod(R.X, ref.N)
+	if r.Sign() == 0 {
+		t.Skip("r = 0")
+	}
+	// s: any byte length 1..32, top bit of the leading byte set or clear, or the low-s boundary
+	var s *big.Int
+	sk := rapid.SampledFrom([]string{"short", "short-topbit", "half", "special"}).Draw(t, "skind")
+	switch sk {
+	case "short", "short-topbit":
+		n := rapid.IntRange(1, 31).Draw(t, "slen")
+		b := gen.Bytes(t, n, n, "sbytes")
+		if sk == "short-topbit" {
+			b[0] |= 0x80
+		} else {
+			b[0] &= 0x7f
+		}
+		s = ref.Int(b)
+	case "half":
+		s = new(big.Int).Sub(ref.HalfN, big.NewInt(int64(rapid.IntRange(0, 3).Draw(t, "below"))))
+	default:
+		s = gen.SSpecial(t, "s")
+	}
+	if ls, neg := ref.LowS(s); neg {
+		s = ls
+	}
+	if s.Sign() == 0 {
+		t.Skip("s = 0")
+	}
+	e := ref.Mod(gen.EValue(t, "e"), ref.N)
+	digest := ref.B32(e)
+	q := R.Mul(s).Sub(ref.BaseMul(e)).Mul(ref.Inv0(r, ref.N))
+	if q.Inf {
+		t.Skip("Q = O")
+	}
+	if !ref.ECDSAVerify(q, digest, r, s) {
+		t.Fatalf("harness: constructed signature is not valid for the reference")
+	}
+	v := byte(R.Y.Bit(0))
+	if R.X.Cmp(ref.N) >= 0 {
+		v |= 2
+	}
+	rb, sb := ref.B32(r), ref.B32(s)
+	lz := func(b []byte) int {
+		n := 0
+		for n < len(b) && b[n] == 0 {
+			n++
+		}
+		return n
+	}
+	cl := []string{"R:" + rk, "s:" + sk, fmt.Sprintf("r-leading-zero-bytes:%d", min(lz(rb), 3)), fmt.Sprintf("s-leading-zero-bytes:%d", min(lz(sb), 3))}
+	stat.Case("encode-stage", cl, lz(rb) > 0 || lz(sb) > 0 || sk == "half", []byte(fmt.Sprintf("%x|%x|%x", r, s, e)), func() any {
+		return map[string]any{"r": r.Text(16), "s": s.Text(16), "v": v, "Q": q.String(), "digest": stat.Hex(digest)}
+	})
+	lr, ls := lib.Sc(r), lib.Sc(s)
+	pub := lib.PubKey(q)
+	for _, enc := range []secec.SignatureEncoding{secec.EncodingASN1, secec.EncodingCompact, secec.EncodingCompactRecoverable} {
+		var got, want []byte
+		switch enc {
+		case secec.EncodingASN1:
+			got, want = secec.BuildASN1Signature(lr, ls), ref.EncodeDERSig(r, s)
+		case secec.EncodingCompact:
+			got, want = secec.BuildCompactSignature(lr, ls), append(append([]byte(nil), rb...), sb...)
+		default:
+			got, want = secec.BuildCompactRecoverableSignature(lr, ls, v), append(append(append([]byte(nil), rb...), sb...), v)
+		}
+		if !bytes.Equal(got, want) {
+			t.Fatalf("encoding %d of (r=%x, s=%x, v=%d): %x, want %x", enc, r, s, v, got, want)
+		}
+		if !pub.Verify(digest, got, &secec.ECDSAOptions{Encoding: enc, RejectMalleable: true}) {
+			t.Fatalf("a valid low-s signature (r=%x, s=%x) encoded by the library as %x (encoding %d) does not verify", r, s, got, enc)
+		}
+	}
+	if lib.ScInt(lr).Cmp(r) != 0 || lib.ScInt(ls).Cmp(s) != 0 {
+		t.Fatal("Build* modified its scalar arguments")
+	}
+	if k, err := secec.RecoverPublicKey(digest, lr, ls, v); err != nil || !k.Equal(pub) {
+		t.Fatalf("recovery id %d does not recover Q for (r=%x, s=%x): %v", v, r, s, err)
+	}
+}
+
+func TestC08_EncodeStage(t *testing.T) { rapid.Check(t, propEncodeStage) }
